@@ -27,7 +27,7 @@ pub fn legal(ts: Ts, op: Op, resizable: bool, clonable_locked: bool) -> bool {
     let (pm, locked) = ts;
     match op {
         Op::Lock => !locked,
-        Op::Unlock => true,   // munlock is offered in every lock state: on an unlocked region it must change nothing
+        Op::Unlock => locked,
         Op::Ro => true,
         Op::Rw => true,
         Op::Na => !locked,
@@ -348,6 +348,20 @@ pub fn sequences(depth: usize, resizable: bool, clonable_locked: bool, with_fill
     out
 }
 
+/// munlock is offered in every lock state (`Unlock` is implemented for `Protected<A, PM, LM>` whatever LM is): on a region that is
+/// not locked it must change nothing. The general generator only unlocks locked regions (it would otherwise double in size);
+/// these are the sequences that reach every unlocked state by a short path, unlock there, and optionally go on
+pub fn self_loop_sequences(resizable: bool, clonable_locked: bool) -> Vec<Vec<Op>> {
+    let mut out = vec![];
+    for s in sequences(2, resizable, clonable_locked, false) {
+        let ts = s.iter().fold((0u8, true), |t, o| next_ts(t, *o));
+        if ts.1 { continue; }
+        let mut a = s.clone(); a.push(Op::Unlock); out.push(a.clone());
+        for o in [Op::Lock, Op::Ro, Op::Rw, Op::Unlock] { let mut b = a.clone(); b.push(o); out.push(b); }
+    }
+    out
+}
+
 fn expected_perm(pm: u8) -> u8 { match pm { 0 => 3, 1 => 1, _ => 0 } }
 fn pages_spanned(len: usize) -> usize { (len + PAGE - 1) / PAGE }
 fn seq_names(ops: &[Op]) -> Vec<&'static str> { ops.iter().map(|o| o.name()).collect() }
@@ -362,6 +376,8 @@ pub fn run_c14(out: &mut Out, tier: &str, _seed: u64) {
     for len in lens.iter() { for s in hb.iter() { plan.push((0, *len, s.clone())); } }
     let ar = sequences(depth, false, false, false);
     for n in [1usize, 16, 64, 4095, 4096, 4097, 8193] { for s in ar.iter() { plan.push((n, n, s.clone())); } }
+    for len in lens.iter() { for s in self_loop_sequences(true, true) { plan.push((0, *len, s)); } }
+    for n in [1usize, 64, 4097] { for s in self_loop_sequences(false, false) { plan.push((n, n, s)); } }
     for (container, len, ops) in plan.iter() {
         let run = run_sequence(*container, *len, ops, 0);
         out.search_evaluations += 1;
@@ -604,6 +620,8 @@ pub fn run_c19(out: &mut Out, tier: &str, _seed: u64) {
     let mut plan: Vec<(usize, usize, &Vec<Op>)> = vec![];
     for len in [0usize, 1, 64, PAGE, PAGE + 1] { for ops in hb.iter() { plan.push((0, len, ops)); } }
     for n in [64usize, 4097] { for ops in ar.iter() { plan.push((n, n, ops)); } }
+    let sl = self_loop_sequences(true, true);
+    for len in [64usize, PAGE + 1] { for ops in sl.iter() { plan.push((0, len, ops)); } }
     {
         for (container, len, ops) in plan.iter() {
             let (container, len, ops) = (*container, len, *ops);
